@@ -205,7 +205,8 @@ def _run(case, clock):
                             what="update changed other output bits")
     nontrivial = any(b.startswith(("moving", "timeout")) for b in branches)
     return dict(ok=True, nontrivial=nontrivial,
-                key=repr((case["moving_ticks"], safe, branches)),
+                key=repr((case["moving_ticks"], safe,
+                          case.get("decl", "packet"), regrouped, branches)),
                 classes=sorted(set(branches)) + [f"safe={safe}",
                                                  "decl=" + case.get(
                                                      "decl", "packet")] + (
